@@ -3,6 +3,10 @@ open Model
 open Conv
 module S = Sexp
 
+(* the value of an event field: an integer, or "null" for a field whose resolution fails *)
+let ev_of = function S.A "null" -> None | x -> Some (z_of_int (S.int x))
+let sexp_of_ev = function None -> S.A "null" | Some v -> S.of_int (int_of_z v)
+
 let sub_of = function
   | S.L [S.A "s"; u; p; S.L sl; S.L sc] ->
     let p = S.int p in
@@ -13,7 +17,7 @@ let sub_of = function
 
 let op_of = function
   | S.L (S.A "sub" :: subs) -> OSub (List.map sub_of subs)
-  | S.L [S.A "pub"; id; S.L ev] -> OPub (nat_of_int (S.int id), List.map (fun x -> z_of_int (S.int x)) ev)
+  | S.L [S.A "pub"; id; S.L ev] -> OPub (nat_of_int (S.int id), List.map ev_of ev)
   | S.L [S.A "unsub"; id] -> OUnsub (nat_of_int (S.int id))
   | x -> failwith ("c19: bad op " ^ S.to_string x)
 
@@ -25,7 +29,7 @@ let sexp_of_out = function
     S.L [S.A "rpub"; S.of_int (int_of_nat po.p_cnt); S.of_int (if po.p_err then 1 else 0);
          S.L (List.map (fun ((u, m), ok) ->
              S.L [S.of_int (int_of_nat u);
-                  S.L (List.map (fun (i, v) -> S.L [S.of_int (int_of_nat i); S.of_int (int_of_z v)]) m);
+                  S.L (List.map (fun (i, v) -> S.L [S.of_int (int_of_nat i); sexp_of_ev v]) m);
                   S.of_int (if ok then 1 else 0)]) po.p_del);
          S.L (List.map S.of_int (sorted (List.map int_of_nat po.p_clean)))]
   | RUnsub (c, cl) ->
@@ -38,7 +42,7 @@ let out_of = function
            p_del = List.map (function
                | S.L [u; S.L m; ok] ->
                  ((nat_of_int (S.int u),
-                   List.map (function S.L [i; v] -> (nat_of_int (S.int i), z_of_int (S.int v)) | _ -> failwith "c19: msg") m),
+                   List.map (function S.L [i; v] -> (nat_of_int (S.int i), ev_of v) | _ -> failwith "c19: msg") m),
                   S.int ok <> 0)
                | _ -> failwith "c19: del") dl;
            p_clean = List.map (fun x -> nat_of_int (S.int x)) cl }
@@ -50,7 +54,7 @@ let run (input : S.t) (observed : S.t) : S.t * string =
   (* (reuse) tells the harness to resolve parsed subscription requests again instead of parsing anew:
      the specification does not know the difference *)
   let h = match input with
-    | S.L (S.A "hist" :: ops) -> List.map op_of (List.filter (function S.L [S.A "reuse"] -> false | _ -> true) ops)
+    | S.L (S.A "hist" :: ops) -> List.map op_of (List.filter (function S.L [S.A "reuse"] | S.L (S.A "subfail" :: _) -> false | _ -> true) ops)
     | _ -> failwith "c19: input" in
   let expected =
     match Model.run [] h with
